@@ -296,6 +296,34 @@ theorem knn_spec {α : Type} (d : α → Rat) (rows : List α) (k : Nat) :
       rw [← List.take_append_drop k (rows.mergeSort _), List.pairwise_append] at h
       exact h.2.2
 
+/-- a sum of a symmetric term is symmetric in the two vectors -/
+theorem sumDef_symm (f : Rat → Rat → Rat) (hf : ∀ x y, f x y = f y x) (a b : List Rat) :
+    sumDef f a b = sumDef f b a := by
+  induction a generalizing b with
+  | nil => cases b <;> simp [sumDef]
+  | cons x xs ih =>
+    cases b with
+    | nil => simp [sumDef]
+    | cons y ys => simp only [sumDef]; rw [hf x y, ih ys]
+
+/-- the exact squared L2 distance is symmetric (`a <-> b` and `b <-> a` order rows alike) -/
+theorem l2_symm (a b : List Rat) : l2sqDef a b = l2sqDef b a := by
+  unfold l2sqDef
+  exact sumDef_symm sqd (fun x y => by unfold sqd; grind) a b
+
+/-- the exact dot product (numerator of the cosine distance) is symmetric -/
+theorem dot_symm (a b : List Rat) : dotDef a b = dotDef b a := by
+  unfold dotDef
+  exact sumDef_symm prd (fun x y => by unfold prd; grind) a b
+
+/-- LIMIT monotonicity: the `k` nearest rows are the first `k` of the `k + m` nearest rows -/
+theorem knn_prefix {α : Type} (d : α → Rat) (rows : List α) (k m : Nat) :
+    knn d rows k = (knn d rows (k + m)).take k := by
+  unfold knn
+  rw [List.take_take]
+  congr 1
+  omega
+
 /-- non-vacuity: the hypotheses of `kernel_eq_def` are satisfiable at a length that has both a
 full chunk and a tail (9 = 8 + 1), and a concrete k-NN run -/
 example : l2sqAvx2 [1, 2, 3, 4, 5, 6, 7, 8, 9] [0, 0, 0, 0, 0, 0, 0, 0, 0] =
@@ -304,5 +332,7 @@ example : l2sqAvx2 [1, 2, 3, 4, 5, 6, 7, 8, 9] [0, 0, 0, 0, 0, 0, 0, 0, 0] =
 
 example : (knn (fun (p : Nat × Rat) => p.2) [(1, 5), (2, 3), (3, 4), (4, 3)] 2).length = 2 :=
   (knn_spec _ _ _).1
+
+example : l2sqDef [1, 2, 3] [4, 6, 3] = l2sqDef [4, 6, 3] [1, 2, 3] := l2_symm _ _
 
 end TurVerif.C24
